@@ -4,6 +4,7 @@ copy confirmed ones to /verif/seeded/<pid>-seedK with meta.json."""
 import json, os, shutil, subprocess, sys
 VERIF = os.path.dirname(os.path.dirname(os.path.abspath(__file__)))
 wt, pid = sys.argv[1], sys.argv[2]
+ROUND = int(sys.argv[3]) if len(sys.argv) > 3 else 2
 for k in sorted(os.listdir(wt)):
     d = os.path.join(wt, k)
     if not (k.startswith("seed") and os.path.isfile(os.path.join(d, "patch.diff")) and os.path.isfile(os.path.join(d, "demo.py"))):
@@ -19,7 +20,7 @@ for k in sorted(os.listdir(wt)):
     except Exception:
         print(k, "seedcheck failed", p.stdout[-500:], p.stderr[-500:])
         continue
-    meta = {"id": f"{pid}-{k}", "breaks_property": pid, "round": 2,
+    meta = {"id": f"{pid}-{k}", "breaks_property": pid, "round": ROUND,
             "author": "independent sub-agent given only the property text and a scratch worktree of /repo",
             "confirmed_by_me": {k2: out.get(k2) for k2 in ("demo_clean_rc", "apply_rc", "tests_rc", "tests_tail", "demo_patched_rc", "demo_patched_tail", "confirmed")},
             "checks_exit_codes": out.get("checks"), "checks_that_report_it": sorted(out.get("fired", {})), "inconclusive": sorted(out.get("inconclusive", {})),
